@@ -486,6 +486,13 @@ def transcendental_cases(ctx):
             else:
                 b = (r.random() < 0.3, rnd_coef(r, r.randint(1, 6)), -r.randint(1, 5))
             out.append(('pow', a, b))
+    # arguments so close to zero that the result is 1 or one of its neighbours (below 1 the unit in the last place is 1E-34, above it 1E-33: the library
+    # short-cuts `rounds to 1` with a threshold that depends on the sign; seeded change C02_h moved it for negative arguments)
+    for ex in range(-38, -29):
+        for c in (1, 2, 3, 4, 5, 9, 25, 35, 39, 41, 45, 99, 251, 499, 501):
+            for neg in (False, True):
+                if not ctx.quick or r.random() < 0.5:
+                    out.append(('exp', (neg, c, ex), None))
     out += [('exp', (False, 100000, 0), None), ('exp', (True, 100000, 0), None), ('exp', (False, 14149, 0), None), ('exp', (False, 14150, 0), None),
             ('ln', (False, 0, 0), None), ('ln', (True, 1, 0), None), ('pow', (False, 10, 0), (False, 6144, 0)), ('pow', (False, 10, 0), (False, 6145, 0)),
             ('pow', (False, 0, 0), (False, 0, 0)), ('pow', (False, 2, 0), (True, 1, 0)), ('pow', (True, 8, 0), (False, 3, 0)), ('pow', (True, 8, 0), (False, 5, -1))]
